@@ -314,6 +314,23 @@ def _gen_many_failures(rng, tier):
             client += [["feed", blob], ["settle"]]
         ok_sid = sid
         client += [["feed", fb.headers(ok_sid, [(b":method", b"GET"), (b":scheme", b"http"), (b":path", b"/ok"), (b":authority", b"h")], end_stream=True)], ["settle"]]
+        # the same with WebSocket sessions (extended CONNECT) whose application fails right after accepting
+        fbw = FrameBuilder()
+        clientw = [["feed", client_preface(fbw, {})], ["settle"]]
+        sidw = 1
+        for b in range(0, nfail, 50):
+            blob = b""
+            for _ in range(50):
+                blob += fbw.headers(sidw, [(b":method", b"CONNECT"), (b":protocol", b"websocket"), (b":scheme", b"http"), (b":path", b"/wsfail"), (b":authority", b"h"),
+                                           (b"sec-websocket-version", b"13")], end_stream=False)
+                sidw += 2
+            clientw += [["feed", blob], ["settle"]]
+        clientw += [["feed", fbw.headers(sidw, [(b":method", b"GET"), (b":scheme", b"http"), (b":path", b"/ok"), (b":authority", b"h")], end_stream=True)], ["settle"]]
+        yield {"family": "h2.many-ws-failures", "backends": ["asyncio", "trio"], "config": {"keep_alive_timeout": 5000, "keep_alive_max_requests": 100000, "h2_max_concurrent_streams": 100000},
+               "conn": {}, "apps": {"default": [["recv_until_end"], ["respond", 200, [], b"fine"]],
+                                    "websocket": [["recv"], ["send", {"type": "websocket.accept"}], ["note", "crash-point"], ["raise", "Exception"]]},
+               "client": clientw, "reactor": {"kind": "h2", "credit": "auto"}, "truth": {"proto": "h2-many", "kind": "raise", "ok_sid": sidw, "nfail": nfail},
+               "sched": {"seed": rng.randrange(1 << 30)}, "horizon": 1000.0}
         yield {"family": "h2.many-failures", "backends": ["asyncio", "trio"], "config": {"keep_alive_timeout": 5000, "keep_alive_max_requests": 100000, "h2_max_concurrent_streams": 100},
                "conn": {}, "apps": {"default": [["recv_until_end"], ["respond", 200, [], b"fine"]],
                                     "by_path": {"/fail": [["recv_until_end"], ["send", {"type": "http.response.start", "status": 200, "headers": []}], ["note", "crash-point"], ["raise", "Exception"]]}},
